@@ -113,7 +113,30 @@ def run_case(case, root, cap=90.0):
 
             b.client._async_request = areq
     cb_calls = []
-    cb = (lambda done, total: cb_calls.append((done, total))) if case.get("callback") else None
+    # "sync": [j, "stat"|"listdir"] = a synchronous request on the same client after the j-th chunk
+    # (progress callback of put/putfo, or application code between two writes of the hand-driven file)
+    sync = case.get("sync")
+    sync_info = dict(done=False, taken=0, pkt=None)
+
+    def do_sync():
+        c = b.client
+        sync_info["pkt"] = len(b.wire.packets)
+        if sync[1] == "stat":
+            c.stat("/r")
+        else:
+            c.listdir("/")
+        sync_info["done"] = True
+        # WRITE requests whose status this call read off the wire (no longer awaited by anybody)
+        with b.wire.plock:
+            wids = [p["id"] for p in b.wire.packets if p["dir"] == "c2s" and p["type"] == 6]
+        sync_info["taken"] = sum(1 for w in wids if w not in c._expecting)
+
+    def cbf(done, total):
+        cb_calls.append((done, total))
+        if sync and len(cb_calls) - 1 == sync[0]:
+            do_sync()
+
+    cb = cbf if (case.get("callback") or sync) else None
     box = dict(done=False, exc=None, ret=None, sink=None)
 
     def work():
@@ -127,8 +150,10 @@ def run_case(case, root, cap=90.0):
                 f = c.open("/r", "wb", case.get("bufsize", -1))
                 f.set_pipelined(True)
                 step = case.get("wsize", 32768)
-                for o in range(0, len(data), step):
+                for wi, o in enumerate(range(0, len(data), step)):
                     f.write(data[o:o + step])
+                    if sync and wi == sync[0]:
+                        do_sync()
                 f.close()
             elif op == "get":
                 c.get("/r", local, callback=cb, prefetch=case["prefetch"],
@@ -185,6 +210,13 @@ def run_case(case, root, cap=90.0):
         werr = [ev[2] for ev in cs_events if ev[0] == wid and ev[2] is not None]
         out["write_status_examined"] = any(ev[0] == wid for ev in cs_events)
         out["write_error_reported"] = bool(werr) and any(w is c for w in werr for c in box.get("chain", []))
+    if sync:
+        out["sync_done"] = sync_info["done"]
+        out["statuses_taken_by_sync"] = sync_info["taken"]
+        if fault and fault[0] == "write" and sync_info["pkt"] is not None:
+            with b.wire.plock:
+                wpk = [p["n"] for p in b.wire.packets if p["dir"] == "c2s" and p["type"] == 6]
+            out["sync_before_rejected_write"] = fault[1] < len(wpk) and sync_info["pkt"] <= wpk[fault[1]]
     out["close_plan"] = cplan
     out["close_fault_delivered"] = bool(close_seen)
     out.update(reads=script.reads, writes=script.writes, callback_calls=len(cb_calls),
